@@ -9,7 +9,7 @@ import Gomacro.Drv.Sem
 import Gomacro.Drv.C15
 import Gomacro.Drv.C03
 import Gomacro.Drv.C04
-import Gomacro.Drv.C05
+import Gomacro.Drv.C13
 /-! JSON-lines driver: one request object per line in, one reply per line out.
 Unknown ops are `bad-op`, never defaulted.  Core-only imports (links as an executable). -/
 open Lean Gomacro.Drv
@@ -34,7 +34,9 @@ def handlers : List (String × Handler) := [
   ("c04.gen", c04Gen),
   ("c04.eval", c04Eval),
   ("c05.gen", c05Gen),
-  ("c05.check", c05Check)
+  ("c05.check", c05Check),
+  ("c13.extract", c13Extract),
+  ("c13.spec", c13Spec)
 ]
 
 def handleLine (line : String) : String :=
